@@ -5,9 +5,11 @@
    - [allocate]    = allocateTag: the `len(m) >= 0xFFFF` pre-check, then the
                      loop `hint++; if hint == NOTAG { hint = 0 }` over at most
                      65535 candidates (uint16 arithmetic written out).
-   - [hstep]       = one iteration of the owner loop transport.handle, driven
-                     by an event: which select case fired and what the
-                     environment (caller, peer, WriteFcall) did.
+   - [hstep]       = one step of the owner loop transport.handle or of its
+                     writer goroutine, driven by an event: which select case
+                     fired and what the environment (caller, peer, WriteFcall)
+                     did.  The loop queues request frames ([h_pend]); the
+                     writer goroutine takes them one at a time ([h_writer]).
    - [send_first], [send_wait] = the two selects of transport.send as the SET
                      of outcomes Go's select may choose (every ready case).
    - [client_result] = the type assertion each csession.go method applies to
@@ -67,8 +69,15 @@ Definition allocate (m : tagmap) (hint : N) : N + herr :=
 Record reply := { r_type : N;      (* FcallType byte of the frame *)
                   r_id : N }.      (* stands for the frame's payload *)
 
+(* a frame queued for / held by the writer goroutine: &fcallWrite{req, fcall} *)
+Record wjob := { w_call : N; w_tag : N; w_mt : N }.
+
 Inductive hevent :=
-| EReq (c : call) (mt : N) (wok : bool)   (* `req := <-t.requests`; mt = request type; wok = WriteFcall succeeded *)
+| EReq (c : call) (mt : N)                (* `req := <-t.requests`: allocate the tag, enter it, queue the frame *)
+| EHand                                   (* `out <- next`: the oldest queued frame goes to the (idle) writer goroutine *)
+| EWrote                                  (* the writer's WriteFcall succeeded: the frame is on the connection *)
+| EWriteFailed                            (* the writer's WriteFcall failed; the loop takes it from `failed`
+                                             (or, the loop having returned, the writer leaves through t.closed) *)
 | EResp (t : tag) (r : reply)             (* `b := <-responses`: the reader goroutine decoded a frame *)
 | EReadFatal                              (* the reader goroutine met a fatal read error: t.close() *)
 | EReadRetry                              (* ReadFcall failed with a timeout-class error (net.Error, Timeout/Temporary) *)
@@ -84,62 +93,89 @@ Inductive hout :=
 | OClosed.                                (* handle returned: close(t.closed) *)
 
 Record hstate := {
-  h_out : tagmap;      (* outstanding *)
-  h_sel : N;           (* selected *)
-  h_shut : bool;       (* t.shutdown is closed *)
-  h_ctx : bool;        (* t.ctx is done *)
-  h_closed : bool;     (* t.closed is closed (the loop has returned) *)
+  h_out : tagmap;           (* outstanding *)
+  h_sel : N;                (* selected *)
+  h_pend : list wjob;       (* pending: frames not yet handed to the writer, oldest first *)
+  h_writer : option wjob;   (* the frame the writer goroutine is busy with *)
+  h_shut : bool;            (* t.shutdown is closed *)
+  h_ctx : bool;             (* t.ctx is done *)
+  h_closed : bool;          (* t.closed is closed (the loop has returned) *)
   h_panicked : bool }.
 
 Definition h_init : hstate :=
-  {| h_out := ∅; h_sel := 0; h_shut := false; h_ctx := false; h_closed := false; h_panicked := false |}.
+  {| h_out := ∅; h_sel := 0; h_pend := []; h_writer := None;
+     h_shut := false; h_ctx := false; h_closed := false; h_panicked := false |}.
 
 Definition h_running (st : hstate) : bool := negb (h_closed st) && negb (h_panicked st).
 
-Definition with_out (st : hstate) (m : tagmap) (sel : N) : hstate :=
-  {| h_out := m; h_sel := sel; h_shut := h_shut st; h_ctx := h_ctx st;
+(* update of the loop-owned data; the flags stay *)
+Definition with_data (st : hstate) (m : tagmap) (sel : N) (pend : list wjob) (w : option wjob) : hstate :=
+  {| h_out := m; h_sel := sel; h_pend := pend; h_writer := w; h_shut := h_shut st; h_ctx := h_ctx st;
      h_closed := h_closed st; h_panicked := h_panicked st |}.
+
+Definition with_flags (st : hstate) (shut ctx closed panicked : bool) : hstate :=
+  {| h_out := h_out st; h_sel := h_sel st; h_pend := h_pend st; h_writer := h_writer st;
+     h_shut := shut; h_ctx := ctx; h_closed := closed; h_panicked := panicked |}.
 
 Definition hstep (st : hstate) (ev : hevent) : hstate * list hout :=
   match ev with
-  | EReq c mt wok =>
+  | EReq c mt =>
       if h_running st then
         match allocate (h_out st) (h_sel st) with
-        | inr e => (st, [ODeliverErr c e])                       (* selected, err = 0, err *)
-        | inl t =>
-            if wok then (with_out st (<[t := c]> (h_out st)) t, [OFrame t c mt])
-            else (with_out st (delete t (<[t := c]> (h_out st))) t, [ODeliverErr c EWrite])
+        | inr e => (st, [ODeliverErr c e])                       (* selected, err = 0, err; req.err <- err *)
+        | inl t => (with_data st (<[t := c]> (h_out st)) t
+                              (h_pend st ++ [{| w_call := c; w_tag := t; w_mt := mt |}]) (h_writer st), [])
         end
       else (st, [])
+  | EHand =>
+      if h_running st then
+        match h_pend st, h_writer st with
+        | w :: rest, None => (with_data st (h_out st) (h_sel st) rest (Some w), [])
+        | _, _ => (st, [])
+        end
+      else (st, [])
+  | EWrote =>
+      (* the writer goroutine is on its own: a write under way completes whether or not the loop still runs *)
+      match h_writer st with
+      | Some w => (with_data st (h_out st) (h_sel st) (h_pend st) None, [OFrame (w_tag w) (w_call w) (w_mt w)])
+      | None => (st, [])
+      end
+  | EWriteFailed =>
+      match h_writer st with
+      | Some w =>
+          if h_running st then
+            (* `if outstanding[w.fcall.Tag] == w.req { delete(...) }; w.req.err <- w.err` *)
+            let keep := match h_out st !! w_tag w with
+                        | Some c => if failed_arm_guarded then negb (c =? w_call w) else false
+                        | None => true
+                        end in
+            (with_data st (if keep then h_out st else delete (w_tag w) (h_out st)) (h_sel st) (h_pend st) None,
+             [ODeliverErr (w_call w) EWrite])
+          else (with_data st (h_out st) (h_sel st) (h_pend st) None, [])   (* `case <-t.closed: return` *)
+      | None => (st, [])
+      end
   | EResp t r =>
       if h_running st then
         match h_out st !! t with
-        | Some c => (with_out st (delete t (h_out st)) (h_sel st), [ODeliver c r])
+        | Some c => (with_data st (delete t (h_out st)) (h_sel st) (h_pend st) (h_writer st), [ODeliver c r])
         | None =>
             if unknown_tag_panics
-            then ({| h_out := h_out st; h_sel := h_sel st; h_shut := h_shut st; h_ctx := h_ctx st;
-                     h_closed := h_closed st; h_panicked := true |}, [OPanic])
+            then (with_flags st (h_shut st) (h_ctx st) (h_closed st) true, [OPanic])
             else (st, [])
         end
       else (st, [])
-  | EReadFatal =>
-      ({| h_out := h_out st; h_sel := h_sel st; h_shut := true; h_ctx := h_ctx st;
-          h_closed := h_closed st; h_panicked := h_panicked st |}, [])
+  | EReadFatal => (with_flags st true (h_ctx st) (h_closed st) (h_panicked st), [])
   | EReadRetry =>
       (* `continue loop` - unless the session is over: then the reader returns, i.e. t.close().
          (ReadFcall returns t.ctx.Err() at once when t.ctx is done; for a context whose
          deadline passed that error is itself a timeout-class error) *)
-      if reader_retry_stops_when_done && (h_ctx st || h_closed st) then
-        ({| h_out := h_out st; h_sel := h_sel st; h_shut := true; h_ctx := h_ctx st;
-            h_closed := h_closed st; h_panicked := h_panicked st |}, [])
+      if reader_retry_stops_when_done && (h_ctx st || h_closed st)
+      then (with_flags st true (h_ctx st) (h_closed st) (h_panicked st), [])
       else (st, [])
-  | ECtxDone =>
-      ({| h_out := h_out st; h_sel := h_sel st; h_shut := h_shut st; h_ctx := true;
-          h_closed := h_closed st; h_panicked := h_panicked st |}, [])
+  | ECtxDone => (with_flags st (h_shut st) true (h_closed st) (h_panicked st), [])
   | EExit =>
-      if h_running st && (h_shut st || h_ctx st) then
-        ({| h_out := h_out st; h_sel := h_sel st; h_shut := h_shut st; h_ctx := h_ctx st;
-            h_closed := true; h_panicked := h_panicked st |}, [OClosed])
+      if h_running st && (h_shut st || h_ctx st)
+      then (with_flags st (h_shut st) (h_ctx st) true (h_panicked st), [OClosed])
       else (st, [])
   | ECancel _ => (st, [])
   end.
@@ -204,7 +240,7 @@ Definition deliveries (tr : list hout) : list (call * reply) :=
 Definition err_deliveries (tr : list hout) : list (call * herr) :=
   flat_map (fun o => match o with ODeliverErr c e => [(c, e)] | _ => [] end) tr.
 Definition req_calls (evs : list hevent) : list call :=
-  flat_map (fun e => match e with EReq c _ _ => [c] | _ => [] end) evs.
+  flat_map (fun e => match e with EReq c _ => [c] | _ => [] end) evs.
 
 (* what is in a call's two buffered channels after a trace *)
 Definition resp_slot (tr : list hout) (c : call) : option reply :=
